@@ -494,6 +494,11 @@ impl GremlinTranslator {
             ast::Step::HasLabel(labels) => {
                 // Labels(var) returns a list of labels, so we need to check if the
                 // target label is IN that list, not if the list equals the label
+                if labels.is_empty() {
+                    return Err(Error::Internal(
+                        "hasLabel() requires at least one label".to_string(),
+                    ));
+                }
                 let predicate = if labels.len() == 1 {
                     LogicalExpression::Binary {
                         left: Box::new(LogicalExpression::Literal(Value::String(
@@ -586,7 +591,8 @@ impl GremlinTranslator {
                     input: Box::new(input),
                 });
                 let plan = LogicalOperator::Limit(LimitOp {
-                    count: end - start,
+                    // range(a, b) with b < a selects nothing (and must not underflow)
+                    count: end.saturating_sub(*start),
                     input: Box::new(plan),
                 });
                 Ok((plan, None))
